@@ -256,4 +256,46 @@ for mode in (None, False):
         it.close()
     finally:
         set_trickery_enabled(None)
+# an async generator-based manager in both inspection modes: its generator frame keeps its contexts (the async generator object,
+# not the frame, owns the references on 3.11+, so the frame needs its origin)
+@contextlib.asynccontextmanager
+async def outer_async():
+    with contextlib.ExitStack() as es:
+        es.enter_context(CM(7))
+        with CM(8):
+            yield
+async def auser():
+    async with outer_async():
+        await ay()
+for mode in (None, False):
+    set_trickery_enabled(mode)
+    try:
+        co = auser(); co.send(None)
+        key = ("async-gcm-contexts", "trickery" if mode is None else "referents")
+        leg.case(key, True)
+        st_ = stackscope.extract(co)
+        ctx = st_.frames[0].contexts[0] if st_.frames and st_.frames[0].contexts else None
+        inner = ctx.inner_stack if ctx is not None else None
+        objs = [type(c.obj).__name__ for c in inner.frames[0].contexts] if inner is not None and inner.frames else None
+        if objs != ["ExitStack", "CM"] or st_.error is not None:
+            leg.violation(key, f"contexts inside an @asynccontextmanager generator frame: {objs}, error={st_.error!r}")
+        co.close()
+    finally:
+        set_trickery_enabled(None)
+# a failing hook on ONE context of a frame must not cost the OTHER contexts of that frame their unfolding
+class BadRepr:
+    def __repr__(s): raise ValueError("repr fails")
+def two_contexts():
+    with contextlib.ExitStack() as es:
+        es.callback(fn, BadRepr())
+        with gcm():
+            yield
+it = two_contexts(); next(it)
+leg.case("fault-on-one-context-spares-the-others", True)
+st_ = stackscope.extract(it)
+cs = st_.frames[0].contexts
+if len(cs) != 2 or cs[1].inner_stack is None or [f.funcname for f in cs[1].inner_stack.frames] != ["gcm"] or st_.error is None:
+    leg.violation("fault-on-one-context-spares-the-others", f"second context of the frame lost its inner stack after the first one's hook failed: "
+                  f"inner={getattr(cs[1], 'inner_stack', None) if len(cs) > 1 else None} error={st_.error!r}")
+it.close()
 leg.finish(exhaustive=THOROUGH)
